@@ -44,7 +44,7 @@ def torch_mods():
 
 # ---------------------------------------------------------------- numpy side
 def ints(a):
-    return np.ascontiguousarray(np.asarray(a), dtype=np.int_)
+    return np.array(a, dtype=np.int_, order="C", copy=True)     # always a private copy: the library works in place
 
 
 def np_g(letters):
